@@ -211,8 +211,8 @@ retry_fetch_lv:
         // case 1. lv_ptr != nullptr, and link to next-layer
         // visited this node
 
-        root = lv_ptr->get_next_layer();
-        if (root == nullptr) {
+        base_node* next_layer_root = lv_ptr->get_next_layer();
+        if (next_layer_root == nullptr) {
             if (early_abort) { return status::WARN_CONCURRENT_OPERATIONS; }
             goto retry_fetch_lv; // NOLINT
         }
@@ -230,8 +230,9 @@ retry_fetch_lv:
             goto retry_fetch_lv; // NOLINT
         }
         // root was fetched correctly.
-        // root = lv; advance key; goto retry_find_border;
+        // advance key; goto retry_find_border;
         traverse_key_view.remove_prefix(sizeof(key_slice_type));
+        // the saved context of this layer keeps the root of THIS layer
         ctx->stack(key_tup, root, target_border, cmp_to_end,
                    {v_at_fb, permutation(target_border->get_permutation().get_body()), 0});
         if (cmp_to_end == 0) {
@@ -239,6 +240,7 @@ retry_fetch_lv:
                 cmp_to_end = -1;
             }
         }
+        root = next_layer_root;
         goto next_layer; // NOLINT
     }
 
